@@ -308,6 +308,25 @@ template<class F, class T> static void segment(vt::Rng& g, long seg, long events
     scalars<F, T>(e, *sk[i]); e.emit();
   };
   auto remember = [&](int i, long v) { if (pool[i].size() < 64) pool[i].push_back(v); else pool[i][g.below(64)] = v; };
+  // "query; mutate; query": the full projection with all queries (they cache the sorted view) of a sketch and of its twin
+  auto observe = [&](int i, uint64_t os) {
+    seed_op(os); version[i]++;   // observers sort level 0 / the base buffer in place: an older image no longer has the same representation
+    { Ev e("Obs"); e.i("id", i); vt::Rng q(os); full_obs<F, T>(e, *sk[i], q, pool[i], true); e.emit(); }
+    if (tw[i]) { seed_op(os); Ev t("Obs"); t.i("id", TW + i).b("restored", true).i("twinOf", i); vt::Rng q(os); full_obs<F, T>(t, *tw[i], q, pool[i], true); t.emit(); }
+  };
+  auto update_one = [&](int i, long v, bool rv, uint64_t os2, bool project) {
+    Sk& s = *sk[i];
+    T x = A::mk(v); remember(i, v);
+    seed_op(os2); if (rv) { T y = x; s.update(std::move(y)); } else s.update(x);
+    version[i]++;
+    Ev e("Update"); e.i("id", i).d("v", A::key(x)).b("rv", rv); if (!g_bits.empty()) e.il("coins", g_bits); scalars<F, T>(e, s);
+    if (project) iterate<F, T>(e, s, nullptr);
+    e.emit();
+    if (tw[i]) {
+      seed_op(os2); if (rv) { T y = x; tw[i]->update(std::move(y)); } else tw[i]->update(x);
+      Ev t("Update"); t.i("id", TW + i).d("v", A::key(x)).b("rv", rv).b("restored", true).i("twinOf", i); if (!g_bits.empty()) t.il("coins", g_bits); scalars<F, T>(t, *tw[i]); t.emit();
+    }
+  };
   mk(0); mk(1);
   for (long step = 0; step < events; step++) {
     int i = (int)g.below(NS);
@@ -329,17 +348,11 @@ template<class F, class T> static void segment(vt::Rng& g, long seg, long events
         }
         long v = next_value(shape[i], g);
         if (std::is_same<T, double>::value && g.chance(1)) v = g.chance(50) ? 99999 : -99999;   // infinities are ordinary items
-        T x = A::mk(v); remember(i, v);
-        const bool rv = g.chance(50);
-        seed_op(os2); if (rv) { T y = x; s.update(std::move(y)); } else s.update(x);
-        version[i]++;
-        Ev e("Update"); e.i("id", i).d("v", A::key(x)).b("rv", rv); if (!g_bits.empty()) e.il("coins", g_bits); scalars<F, T>(e, s);
-        if (g.chance(4)) iterate<F, T>(e, s, nullptr);
-        e.emit();
-        if (tw[i]) {
-          seed_op(os2); if (rv) { T y = x; tw[i]->update(std::move(y)); } else tw[i]->update(x);
-          Ev t("Update"); t.i("id", TW + i).d("v", A::key(x)).b("rv", rv).b("restored", true).i("twinOf", i); if (!g_bits.empty()) t.il("coins", g_bits); scalars<F, T>(t, *tw[i]); t.emit();
-        }
+        // cached derived state: every so often the update is bracketed by queries (no other call in between)
+        const bool bracket = burst == 1 && g.chance(8);
+        if (bracket) observe(i, os2 + 1);
+        update_one(i, v, g.chance(50), os2, g.chance(4));
+        if (bracket) observe(i, os2 + 2);
       }
     } else if (op < upd + 2) {
       mk(i);
@@ -348,6 +361,14 @@ template<class F, class T> static void segment(vt::Rng& g, long seg, long events
       int j = (int)g.below(NS);
       if (j == i || !sk[j] || s.get_n() + sk[j]->get_n() > (uint64_t)maxn) continue;
       const bool rv = g.chance(50);
+      // merge paths that depend on the source's shape: every third merge first brings the source to an n that is an exact multiple of
+      // 2 * k (classic: empty base buffer, levels only) by plain updates
+      if (g.chance(35)) {
+        const uint64_t per = 2ULL * sk[j]->get_k(); int added = 0;
+        while (sk[j]->get_n() % per != 0 && added < 130 && s.get_n() + sk[j]->get_n() < (uint64_t)maxn) { update_one(j, next_value(shape[j], g), false, os + 7 + (uint64_t)added * 31, false); added++; }
+      }
+      // query; merge; query - the queries before the merge cache the sorted view of the target
+      observe(i, os + 3);
       if (tw[i]) { Ev("Copy").i("src", j).i("dst", TMP).emit(); }
       std::unique_ptr<Sk> tmp; if (tw[i]) tmp.reset(new Sk(*sk[j]));
       seed_op(os); if (rv) s.merge(std::move(*sk[j])); else s.merge(*sk[j]);
@@ -360,11 +381,9 @@ template<class F, class T> static void segment(vt::Rng& g, long seg, long events
         if (!rv) Ev("Destroy").i("id", TMP).emit();
       }
       if (rv) { drop_twin(j); sk[j].reset(); version[j]++; }   // moved-from: not used again
+      observe(i, os + 5);
     } else if (op < upd + 17) {
-      seed_op(os);
-      version[i]++;   // observers sort level 0 / the base buffer in place: an older image no longer has the same representation
-      { Ev e("Obs"); e.i("id", i); vt::Rng q(os); full_obs<F, T>(e, s, q, pool[i], true); e.emit(); }
-      if (tw[i]) { seed_op(os); Ev t("Obs"); t.i("id", TW + i).b("restored", true).i("twinOf", i); vt::Rng q(os); full_obs<F, T>(t, *tw[i], q, pool[i], true); t.emit(); }
+      observe(i, os);
     } else if (op < upd + 22) {
       // invalid queries must throw
       struct Q { const char* what; std::function<void(const Sk&)> f; };
